@@ -1,8 +1,467 @@
-//! C03 — not built yet (stub).
+//! C03 — literal text is preserved; trim markers, raw and comment do exactly their job.
+//!
+//! Templates are generated as item lists whose delimiter sides independently carry or omit the
+//! trim marker; the expected output is pure string algebra over the generated structure.
+//! non-trivial rule: the template contains at least one delimiter adjacent to a non-empty text
+//! segment (so trimming / verbatim copying is actually exercised); markup-free texts of the
+//! identity family count when they contain a brace, percent, quote or whitespace character.
+use crate::cfg::{parser, Config};
 use crate::ctx::Ctx;
+use crate::exec::{render, Out};
+use crate::rng::{hash_str, Rng};
+use liquid::Object;
+use serde_json::json;
 
-pub fn run(_ctx: &mut Ctx) {}
+#[derive(Clone, Copy, Debug, Default)]
+pub struct D {
+    pub lt: bool,
+    pub rt: bool,
+    pub pl: usize,
+    pub pr: usize,
+}
 
-pub fn replay(_j: &serde_json::Value) -> bool {
-    false
+#[derive(Clone, Debug)]
+pub enum Item {
+    Text(String),
+    Out(D, String),
+    Assign(D),
+    IfTrue(D, D, Vec<Item>),
+    ForOne(D, D, Vec<Item>),
+    CapturePrint(D, D, D, Vec<Item>),
+    Raw(D, D, String),
+    Comment(D, D, String),
+}
+
+#[derive(Clone, Debug)]
+enum Seg {
+    Text(String),
+    Delim { lt: bool, rt: bool, prints: Option<String> },
+}
+
+fn tag(d: &D, inner: &str) -> String {
+    format!("{{%{}{}{}{}{}%}}", if d.lt { "-" } else { "" }, " ".repeat(d.pl.max(if d.lt { 0 } else { 0 })), inner, " ".repeat(d.pr), if d.rt { "-" } else { "" })
+}
+fn expr(d: &D, inner: &str) -> String {
+    format!("{{{{{}{}{}{}{}}}}}", if d.lt { "-" } else { "" }, " ".repeat(d.pl), inner, " ".repeat(d.pr), if d.rt { "-" } else { "" })
+}
+
+fn source(items: &[Item], out: &mut String) {
+    for it in items {
+        match it {
+            Item::Text(t) => out.push_str(t),
+            Item::Out(d, lit) => out.push_str(&expr(d, &format!("'{lit}'"))),
+            Item::Assign(d) => out.push_str(&tag(d, "assign zz = 5")),
+            Item::IfTrue(a, b, body) => {
+                out.push_str(&tag(a, "if true"));
+                source(body, out);
+                out.push_str(&tag(b, "endif"));
+            }
+            Item::ForOne(a, b, body) => {
+                out.push_str(&tag(a, "for q in (1..1)"));
+                source(body, out);
+                out.push_str(&tag(b, "endfor"));
+            }
+            Item::CapturePrint(a, b, c, body) => {
+                out.push_str(&tag(a, "capture cc"));
+                source(body, out);
+                out.push_str(&tag(b, "endcapture"));
+                out.push_str(&expr(c, "cc"));
+            }
+            Item::Raw(a, b, body) => {
+                out.push_str(&tag(a, "raw"));
+                out.push_str(body);
+                out.push_str(&tag(b, "endraw"));
+            }
+            Item::Comment(a, b, body) => {
+                out.push_str(&tag(a, "comment"));
+                out.push_str(body);
+                out.push_str(&tag(b, "endcomment"));
+            }
+        }
+    }
+}
+
+fn flatten(items: &[Item], segs: &mut Vec<Seg>) {
+    let d = |x: &D, prints: Option<String>| Seg::Delim { lt: x.lt, rt: x.rt, prints };
+    for it in items {
+        match it {
+            Item::Text(t) => segs.push(Seg::Text(t.clone())),
+            Item::Out(x, lit) => segs.push(d(x, Some(lit.clone()))),
+            Item::Assign(x) => segs.push(d(x, None)),
+            Item::IfTrue(a, b, body) | Item::ForOne(a, b, body) => {
+                segs.push(d(a, None));
+                flatten(body, segs);
+                segs.push(d(b, None));
+            }
+            Item::CapturePrint(a, b, c, body) => {
+                segs.push(d(a, None));
+                flatten(body, segs);
+                segs.push(d(b, None));
+                // the captured text is printed here; nothing is printed between endcapture and it
+                segs.push(d(c, None));
+            }
+            Item::Raw(a, b, body) => {
+                segs.push(d(a, None));
+                segs.push(Seg::Text(body.clone()));
+                segs.push(d(b, None));
+            }
+            Item::Comment(a, b, _) => {
+                segs.push(d(a, None));
+                // body emits nothing; text trimmed or not is irrelevant
+                segs.push(Seg::Delim { lt: false, rt: false, prints: None });
+                segs.push(d(b, None));
+            }
+        }
+    }
+}
+
+fn is_trim_ws(c: char) -> bool {
+    c == ' ' || c == '\t' || c == '\n' || c == '\r'
+}
+
+/// the prediction: a text segment loses its trailing whitespace run iff the next delimiter has a
+/// left marker and its leading run iff the previous delimiter has a right marker; nothing else
+pub fn predict(items: &[Item]) -> String {
+    predict_with(items, is_trim_ws)
+}
+
+fn predict_with(items: &[Item], is_ws: fn(char) -> bool) -> String {
+    let mut segs = Vec::new();
+    flatten(items, &mut segs);
+    // merge adjacent texts
+    let mut merged: Vec<Seg> = Vec::new();
+    for s in segs {
+        match (merged.last_mut(), &s) {
+            (Some(Seg::Text(a)), Seg::Text(b)) => a.push_str(b),
+            _ => merged.push(s),
+        }
+    }
+    let mut out = String::new();
+    for i in 0..merged.len() {
+        match &merged[i] {
+            Seg::Delim { prints, .. } => {
+                if let Some(p) = prints {
+                    out.push_str(p);
+                }
+            }
+            Seg::Text(t) => {
+                let mut s: &str = t;
+                if i > 0 {
+                    if let Seg::Delim { rt: true, .. } = merged[i - 1] {
+                        s = s.trim_start_matches(is_ws);
+                    }
+                }
+                if i + 1 < merged.len() {
+                    if let Seg::Delim { lt: true, .. } = merged[i + 1] {
+                        s = s.trim_end_matches(is_ws);
+                    }
+                }
+                out.push_str(s);
+            }
+        }
+    }
+    out
+}
+
+const WS: [&str; 5] = [" ", "\t", "\n", "\r", "\r\n"];
+const TEXT_ATOMS: [&str; 22] = [
+    "a", "B", "é", "👍", "\u{a0}", "\u{3000}", "{", "}", "%", "'", "\"", "-", "|", "x y", " ", "\t", "\n", "\r\n", "}}", "%}", "-}", "e\u{301}",
+];
+
+fn ws_run(r: &mut Rng) -> String {
+    let n = r.below(5);
+    (0..n).map(|_| r.choose(&WS)).collect()
+}
+
+/// text that is not markup: never contains `{{` / `{%`, never ends in `{`
+fn gen_text(r: &mut Rng) -> String {
+    let n = 1 + r.below(5);
+    let mut s = String::new();
+    if r.chance(1, 2) {
+        s.push_str(&ws_run(r));
+    }
+    for _ in 0..n {
+        s.push_str(r.choose(&TEXT_ATOMS));
+    }
+    if r.chance(1, 2) {
+        s.push_str(&ws_run(r));
+    }
+    sanitize_text(&s)
+}
+
+fn sanitize_text(s: &str) -> String {
+    let mut t = s.to_string();
+    while t.contains("{{") || t.contains("{%") {
+        t = t.replace("{{", "{ {").replace("{%", "{ %");
+    }
+    while t.ends_with('{') {
+        t.push('.');
+    }
+    t
+}
+
+fn gen_d(r: &mut Rng) -> D {
+    D { lt: r.chance(1, 2), rt: r.chance(1, 2), pl: r.below(4), pr: r.below(4) }
+}
+
+/// raw bodies: text, things that look like tags/outputs, unterminated markup — but no quote
+/// character inside markup-looking text (that is the separately labelled sub-family) and not the
+/// closing tag itself
+fn gen_raw_body(r: &mut Rng) -> String {
+    let atoms = ["x", " ", "\n", "\t", "{{ a }}", "{% if b %}", "{%- assign q = 1 -%}", "{{", "{%", "}}", "%}", "{{ a | upcase", "{% endif %}", "{% raw %}", "é", "{", "}", "  ", "{{- 1 -}}", "{% comment %}", "\u{a0}"];
+    let n = r.below(6);
+    (0..n).map(|_| r.choose(&atoms)).collect()
+}
+
+/// comment bodies: arbitrary text, invalid output tags, well-formed programs with side effects,
+/// nested comments (no unbalanced block openers: those belong to C01)
+fn gen_comment_body(r: &mut Rng) -> String {
+    let atoms = [
+        "note", " ", "\n", "{{ a | nofilter }}", "{{ }}", "{% assign vv = 2 %}", "{% increment nn %}", "{% comment %}inner{% endcomment %}",
+        "{% if true %}{% assign vv = 3 %}{% endif %}", "{{ vv }}", "é", "{% capture vv %}zz{% endcapture %}", "{%- decrement nn -%}", "}}", "%}", "{% unknowntag %}",
+    ];
+    let n = r.below(6);
+    (0..n).map(|_| r.choose(&atoms)).collect()
+}
+
+fn gen_items(r: &mut Rng, depth: usize, max: usize) -> Vec<Item> {
+    let n = 1 + r.below(max);
+    let mut v = Vec::new();
+    for _ in 0..n {
+        let k = r.below(if depth >= 2 { 5 } else { 10 });
+        v.push(match k {
+            0 | 1 => Item::Text(gen_text(r)),
+            2 => Item::Out(gen_d(r), r.choose(&["o", "", " p ", "é"]).to_string()),
+            3 => Item::Assign(gen_d(r)),
+            4 => Item::Raw(gen_d(r), gen_d(r), gen_raw_body(r)),
+            5 => Item::Comment(gen_d(r), gen_d(r), gen_comment_body(r)),
+            6 => Item::IfTrue(gen_d(r), gen_d(r), gen_items(r, depth + 1, 3)),
+            7 => Item::ForOne(gen_d(r), gen_d(r), gen_items(r, depth + 1, 3)),
+            8 => Item::CapturePrint(gen_d(r), gen_d(r), gen_d(r), gen_items(r, depth + 1, 3)),
+            _ => Item::Text(gen_text(r)),
+        });
+    }
+    v
+}
+
+fn has_comment(items: &[Item]) -> bool {
+    items.iter().any(|i| match i {
+        Item::Comment(..) => true,
+        Item::IfTrue(_, _, b) | Item::ForOne(_, _, b) | Item::CapturePrint(_, _, _, b) => has_comment(b),
+        _ => false,
+    })
+}
+
+fn nontrivial(items: &[Item]) -> bool {
+    let mut segs = Vec::new();
+    flatten(items, &mut segs);
+    segs.windows(2).any(|w| matches!((&w[0], &w[1]), (Seg::Text(t), Seg::Delim { .. }) | (Seg::Delim { .. }, Seg::Text(t)) if !t.is_empty()))
+}
+
+struct Env {
+    parser: liquid::Parser,
+    globals: Object,
+}
+
+fn check(ctx: &mut Ctx, env: &Env, items: &[Item], family: &str) {
+    let mut src = String::new();
+    source(items, &mut src);
+    let mut want = predict(items);
+    // comments must have no effect: wrap with a probe of the variables their bodies touch
+    let probe = has_comment(items);
+    if probe {
+        src = format!("{{% assign vv = 1 %}}{src}|{{{{ vv }}}}|{{% increment nn %}}");
+        want = format!("{want}|1|0");
+    }
+    let h = hash_str(&src);
+    if !ctx.mine(h) {
+        return;
+    }
+    ctx.set_progress(&src);
+    let replay = || json!({"kind": "c03", "template": src, "expected": want, "family": family});
+    let t = match crate::mon::guard(|| env.parser.parse(&src)) {
+        Ok(Ok(t)) => t,
+        Ok(Err(e)) => {
+            ctx.record(h, nontrivial(items));
+            ctx.violation(
+                &format!("{family}:well-formed-template-rejected"),
+                &format!("generated template rejected: {}", e.to_string().lines().next().unwrap_or("")),
+                replay,
+            );
+            return;
+        }
+        Err(p) => {
+            ctx.violation(&p.key(), &format!("parse panicked: {}", p.msg), replay);
+            return;
+        }
+    };
+    let out = render(&t, &env.globals);
+    ctx.record(h, nontrivial(items));
+    ctx.count(&format!("family:{family}"));
+    match &out {
+        Out::Ok(got) => {
+            if got != &want {
+                let key = classify(items, probe, got, family);
+                ctx.violation(&key, &format!("template {src:?} rendered {got:?}, structure predicts {want:?}"), replay);
+            }
+        }
+        Out::Err(e) => ctx.violation(&format!("{family}:render-error"), &format!("template {src:?} failed to render: {e}"), replay),
+        Out::Panic(p) => ctx.violation(&p.key(), &format!("render panicked: {}", p.msg), replay),
+        Out::BadUtf8(_) => ctx.violation("non-utf8-output", "bad utf8", replay),
+    }
+    ctx.sample(|| json!({"family": family, "template": src, "expected": want}));
+}
+
+/// defect-class key for a wrong output
+fn classify(items: &[Item], probe: bool, got: &str, family: &str) -> String {
+    // defect model "tab next to a trim marker survives": the observed output equals the
+    // prediction made with a whitespace class that lacks the tab
+    fn no_tab(c: char) -> bool {
+        c == ' ' || c == '\n' || c == '\r'
+    }
+    let mut alt = predict_with(items, no_tab);
+    if probe {
+        alt.push_str("|1|0");
+    }
+    if alt == got {
+        return "trim:tab-not-trimmed".to_string();
+    }
+    format!("{family}:output-differs-from-structure")
+}
+
+pub fn run(ctx: &mut Ctx) {
+    ctx.start_watchdog(120);
+    let mut globals = Object::new();
+    globals.insert("a".into(), liquid::model::Value::scalar("A"));
+    let env = Env { parser: parser(Config::Stdlib), globals };
+
+    // (1) exhaustive single-item core: left ws run x right ws run x markers x item kind
+    let mut runs: Vec<String> = vec![String::new()];
+    let ws4 = [" ", "\t", "\n", "\r"];
+    for a in ws4 {
+        runs.push(a.to_string());
+        for b in ws4 {
+            runs.push(format!("{a}{b}"));
+        }
+    }
+    runs.extend(["\r\n\r\n".to_string(), "  \n\t".to_string(), "\n\n\n\n".to_string(), "\t \t ".to_string(), "\u{a0}".to_string(), " \u{3000} ".to_string(), "\u{a0} ".to_string(), " \u{a0}".to_string()]);
+    let pads = if ctx.quick() { vec![(1usize, 1usize)] } else { vec![(0, 0), (1, 1), (3, 0), (0, 2)] };
+    for l in &runs {
+        for r_ in &runs {
+            for bits in 0..16u32 {
+                for (pl, pr) in &pads {
+                    let d1 = D { lt: bits & 1 != 0, rt: bits & 2 != 0, pl: *pl, pr: *pr };
+                    let d2 = D { lt: bits & 4 != 0, rt: bits & 8 != 0, pl: *pr, pr: *pl };
+                    let left = Item::Text(format!("a{l}"));
+                    let right = Item::Text(format!("{r_}b"));
+                    let inner_ws = |s: &str| vec![Item::Text(format!("{r_}{s}{l}"))];
+                    let mut kinds: Vec<Item> = vec![
+                        Item::IfTrue(d1, d2, inner_ws("m")),
+                        Item::ForOne(d1, d2, inner_ws("m")),
+                        Item::Raw(d1, d2, format!("{r_}{{{{ m }}}}{l}")),
+                        Item::Comment(d1, d2, format!("{r_}m{l}")),
+                    ];
+                    if bits < 4 {
+                        kinds.push(Item::Out(d1, "o".into()));
+                        kinds.push(Item::Assign(d1));
+                    }
+                    if bits < 4 || !ctx.quick() {
+                        kinds.push(Item::CapturePrint(d1, d2, D { lt: bits & 2 != 0, rt: bits & 1 != 0, pl: 1, pr: 1 }, inner_ws("m")));
+                    }
+                    for k in kinds {
+                        check(ctx, &env, &[left.clone(), k, right.clone()], "single-item-exhaustive");
+                    }
+                }
+            }
+        }
+    }
+    // (2) random multi-item templates
+    let n = ctx.scale(60_000u64, 1_000_000u64);
+    let rng = ctx.rng("c03-multi");
+    for i in 0..n {
+        let mut r = rng.fork(i);
+        let items = gen_items(&mut r, 0, 5);
+        check(ctx, &env, &items, "multi-item-random");
+    }
+    // (3) no markup => identity
+    let n = ctx.scale(30_000u64, 300_000u64);
+    let rng = ctx.rng("c03-identity");
+    for i in 0..n {
+        let mut r = rng.fork(i);
+        let k = 1 + r.below(6);
+        let text: String = (0..k).map(|_| gen_text(&mut r)).collect();
+        let text = sanitize_text(&text);
+        let h = hash_str(&format!("id:{text}"));
+        if !ctx.mine(h) {
+            continue;
+        }
+        let nt = text.chars().any(|c| "{}%'\"-".contains(c) || c.is_whitespace());
+        match env.parser.parse(&text) {
+            Ok(t) => {
+                let out = render(&t, &env.globals);
+                ctx.record(h, nt);
+                ctx.count("family:identity");
+                if out.ok() != Some(text.as_str()) {
+                    ctx.violation("identity:markup-free-text-changed", &format!("text {text:?} rendered as {:?}", out.summary()), || {
+                        json!({"kind": "c03", "template": text, "expected": text, "family": "identity"})
+                    });
+                }
+            }
+            Err(e) => {
+                ctx.record(h, nt);
+                ctx.violation("identity:markup-free-text-rejected", &format!("text {text:?} rejected: {}", e.to_string().lines().next().unwrap_or("")), || {
+                    json!({"kind": "c03", "template": text, "expected": text, "family": "identity"})
+                });
+            }
+        }
+    }
+    // (4) labelled sub-family: a string-literal opener inside a raw/comment body that pairs with
+    // a quote after the closing tag (kept apart so that it neither pollutes nor hides behind the
+    // main family)
+    let quote_cases: [(&str, &str); 6] = [
+        ("{% raw %}{{ \"a{% endraw %}b\" }}", "{{ \"ab\" }}"),
+        ("{% raw %}{{ 'a{% endraw %}b' }}", "{{ 'ab' }}"),
+        ("{% raw %}{% if \"a{% endraw %}b\" %}", "{% if \"ab\" %}"),
+        ("{% raw %}x {{ 'q {% endraw %} y ' }} z", "x {{ 'q  y ' }} z"),
+        ("{% comment %}{{ \"a{% endcomment %}b\" }}", "b\" }}"),
+        ("{% comment %}{{ 'a{% endcomment %}b' }}c", "b' }}c"),
+    ];
+    if ctx.shard == 0 {
+        for (src, want) in quote_cases {
+            let h = hash_str(src);
+            let got = match env.parser.parse(src) {
+                Ok(t) => render(&t, &env.globals).summary(),
+                Err(e) => format!("parse-error:{}", e.to_string().lines().next().unwrap_or("")),
+            };
+            ctx.record(h, true);
+            ctx.count("family:quote-across-closing-tag");
+            if got != format!("ok:{want}") {
+                ctx.violation(
+                    "raw-or-comment:string-literal-spans-closing-tag",
+                    &format!("template {src:?}: the body is merely unterminated markup, expected output {want:?}, got {got:?}"),
+                    || json!({"kind": "c03", "template": src, "expected": want, "family": "quote-across-closing-tag"}),
+                );
+            }
+        }
+    }
+}
+
+pub fn replay(j: &serde_json::Value) -> bool {
+    let p = parser(Config::Stdlib);
+    let src = j["template"].as_str().unwrap_or("");
+    let want = j["expected"].as_str().unwrap_or("");
+    let mut globals = Object::new();
+    globals.insert("a".into(), liquid::model::Value::scalar("A"));
+    println!("template = {src:?}\nexpected = {want:?}");
+    match p.parse(src) {
+        Ok(t) => {
+            let out = render(&t, &globals);
+            println!("observed = {:?}", out.summary());
+            out.ok() != Some(want)
+        }
+        Err(e) => {
+            println!("observed = parse error: {}", e.to_string().lines().next().unwrap_or(""));
+            true
+        }
+    }
 }
